@@ -10,6 +10,7 @@ import (
 	"io"
 	"log"
 	"math"
+	"strings"
 	"sync/atomic"
 
 	"github.com/deadsy/sdfx/render/dc"
@@ -351,6 +352,22 @@ func main() {
 			shapes = append(shapes, shp{name: fmt.Sprintf("%s at %v", b.name, at), s: sdf.Transform3D(b.s, sdf.Translate3d(at)), size: b.size, ns: []int{8, 11}, class: "far-" + b.class, at: at})
 		}
 	}
+	// long thin parts at a fine resolution (round 8): more than 1024 and more than 2048 cells along one axis, 8 across
+	// (a cell index packed into too few bits per axis), V2 only
+	for ax := 0; ax < 3; ax++ {
+		for _, n := range []int{1104, 2100} {
+			l := float64(n) / 10
+			rod := m3(sdf.Cylinder3D(l-0.45, 0.25, 0.1)) // along z
+			bx := v3.Vec{X: 0.8, Y: 0.8, Z: l}
+			switch ax {
+			case 0:
+				rod, bx = sdf.Transform3D(rod, sdf.RotateY(sdf.DtoR(90))), v3.Vec{X: l, Y: 0.8, Z: 0.8}
+			case 1:
+				rod, bx = sdf.Transform3D(rod, sdf.RotateX(sdf.DtoR(90))), v3.Vec{X: 0.8, Y: l, Z: 0.8}
+			}
+			shapes = append(shapes, shp{name: fmt.Sprintf("rod of %d cells along axis %d, 8 cells across", n, ax), s: rod, size: l, ns: []int{n}, class: "long-rod", box: bx})
+		}
+	}
 	type job struct {
 		sh shp
 		n  int
@@ -360,6 +377,9 @@ func main() {
 	for _, sh := range shapes {
 		for _, n := range sh.ns {
 			for _, st := range settings {
+				if sh.class == "long-rod" && !strings.HasPrefix(st.name, "V2 default") && !strings.HasPrefix(st.name, "V2 FarAway") {
+					continue
+				}
 				jobs = append(jobs, job{sh, n, st})
 			}
 		}
